@@ -241,6 +241,52 @@ pub fn run(ctx: &Ctx) -> Report {
     }
     let st = explore(&ctx.pool, jobs, j);
     rep.part("a 300-level deep tree (descriptors must not grow with depth either)", st, serde_json::json!({"depth": 300}));
+    // width in the argument list instead of in one directory: hundreds of source arguments, each a directory. Under
+    // round robin every thread advances evenly, so whatever is held per source is held for all of them at once.
+    let mut jobs = vec![];
+    for d in drivers() {
+        for n in if q { vec![300usize] } else { vec![150usize, 300, 600] } {
+            let mut t = vec![Entry::dir("dst")];
+            let mut names: Vec<String> = vec![];
+            for i in 0..n {
+                let dn = format!("s{:04}", i);
+                t.push(Entry::dir(&dn));
+                t.push(Entry::file(&format!("{}/f", dn), "x"));
+                names.push(dn);
+            }
+            let mut args: Vec<&str> = vec!["-r", "--driver", d, "-w", "2"];
+            args.extend(names.iter().map(|x| x.as_str()));
+            args.push("dst");
+            let s = Arc::new(Scenario::new(&format!("fds-many-sources-{}-w2-n{}", d, n), t, &args));
+            let os = orders(d, 2);
+            let walker_first: Vec<String> = vec!["0.1.1".into(), "0.1".into(), "0".into()];
+            for mut sp in [
+                RunSpec::base(Policy::RR),
+                RunSpec::base(Policy::P0),
+                RunSpec::base(Policy::P1),
+                RunSpec::base(Policy::Prio(os[0].clone())),
+                RunSpec::base(Policy::Prio(os.last().unwrap().clone())),
+                RunSpec::base(Policy::PrioRR(os[0].clone())),
+                RunSpec::base(Policy::PrioRR(os.last().unwrap().clone())),
+                RunSpec::base(Policy::PrioRR(walker_first.clone())),
+                RunSpec::base(Policy::PrioRR(vec![])),
+            ] {
+                sp.step_limit = 5_000_000;
+                jobs.push((s.clone(), sp, 0usize));
+            }
+        }
+    }
+    // and round robin on the plain wide tree
+    for d in drivers() {
+        for n in [280usize, 560] {
+            let s = Arc::new(Scenario::new(&format!("fds-roundrobin-{}-w2-n{}", d, n), tree(n), &["-r", "--driver", d, "-w", "2", "src", "dst"]));
+            let mut sp = RunSpec::base(Policy::RR);
+            sp.step_limit = 5_000_000;
+            jobs.push((s, sp, 0usize));
+        }
+    }
+    let st = explore(&ctx.pool, jobs, j);
+    rep.part("hundreds of source arguments (one directory each) and round-robin scheduling", st, serde_json::json!({}));
     if !q {
         // one deviation around the worst order at n=140
         let mut jobs = vec![];
